@@ -1,36 +1,54 @@
 """Hand audit of the panic-capable edges of the rfsm-expression region (C11, R11.1). One reason per edge, written after
 reading the code. Findings (D3, ...) are NOT here: they are failing obligations listed in known_findings.json."""
-P = "expression_engine::parser::ExpressionParser::"
-L = "expression_engine::lexer::ExpressionLexer::"
 REASONS = {
-    "<datamodel::Data as std::cmp::PartialEq>::eq|index|index:Vec|1": "index runs over 0..a.len() after a.len() != b.len() returned false",
-    "<datamodel::Data as std::cmp::PartialEq>::eq|index|index:Vec|2": "same loop: b.len() == a.len() on this path",
-    "<datamodel::expression_engine::RFsmExpressionDatamodel as datamodel::Datamodel>::executeContent|unwrap|unwrap|1":
-        "content ids stored in the model are allocated by the reader/deserializer together with their block (Fsm::executeContent filters id 0)",
-    "<datamodel::expression_engine::RFsmExpressionDatamodel as datamodel::Datamodel>::execute_for_each|assert|overflow:Add|1":
-        "idx counts the iterations over an in-memory array: cannot reach i64::MAX",
-    "<datamodel::expression_engine::RFsmExpressionDatamodel as datamodel::Datamodel>::execute_for_each|assert|overflow:Add|2":
-        "idx counts the iterations over an in-memory map: cannot reach i64::MAX",
-    "<expression_engine::expressions::ExpressionMemberAccess as expression_engine::expressions::Expression>::execute|unwrap|unwrap|2":
-        "the key was inserted into the same map on the line before",
-    "<expression_engine::expressions::ExpressionVariable as expression_engine::expressions::Expression>::execute|unwrap|unwrap|1":
-        "the variable was just created by set_undefined on a name that get() did not find (so no read-only entry blocks the insert)",
-    L + "eat_space|index|index:Vec|1": "guarded by has_next() (pos < text.len()) in the same short-circuit condition",
-    L + "next_char|index|index:Vec|1": "inside `if self.pos < self.text.len()`",
-    L + "push_back|assert|overflow:Sub|1": "inside `if self.pos > 0`",
-    P + "fold_stack_at|vec-remove|remove|1": "inside `idx > 0 && idx + 1 < stack.len()`",
-    P + "fold_stack_at|vec-remove|remove|2": "idx < old len - 1 after one removal above it",
-    P + "fold_stack_at|assert|overflow:Sub|1": "idx > 0 on this path",
-    P + "fold_stack_at|vec-remove|remove|3": "idx - 1 >= 0 and < len",
-    P + "fold_stack_at|assert|overflow:Sub|2": "idx > 0 on this path",
-    P + "fold_stack_at|vec-insert|insert|1": "idx - 1 <= len after the three removals (len >= idx - 1 because idx + 1 < old len)",
-    P + "stack_to_expression|index|index:Vec|1": "loop condition si < stack.len(); the stack is not shrunk in the loop",
-    P + "stack_to_expression|index|index:Vec|2": "same si as the read on the scrutinee",
-    P + "stack_to_expression|diverge|panic!|1": "reachable only for a stack token other than Identifier / Operator / Separator('.'): excluded by rule R11.2 (all SToken push sites)",
-    P + "stack_to_expression|vec-remove|remove|1": "the stack is non-empty (is_empty() returned early above and nothing was removed on this path)",
-    P + "stack_to_expression|unwrap|unwrap|1": "best_idx was assigned from si < stack.len() in the scan and the stack is unchanged since",
-    P + "stack_to_expression|vec-remove|remove|2": "inside `best_idx + 1 < stack.len()`",
-    P + "stack_to_expression|vec-remove|remove|3": "best_idx < len after one removal because best_idx + 1 < old len",
-    P + "stack_to_expression|vec-insert|insert|1": "best_idx <= len after two removals",
-    P + "stack_to_expression::{closure#3}|vec-insert|insert|1": "insert at 0 is always in range",
+    '<datamodel::Data as std::cmp::PartialEq>::eq|index|index:Vec|1':
+        'index runs over 0..a.len() after a.len() != b.len() returned false',
+    '<datamodel::Data as std::cmp::PartialEq>::eq|index|index:Vec|2':
+        'same loop: b.len() == a.len() on this path',
+    '<datamodel::expression_engine::RFsmExpressionDatamodel as datamodel::Datamodel>::executeContent|unwrap|unwrap<-get|1':
+        'content ids stored in the model are allocated by the reader/deserializer together with their block (Fsm::executeContent filters id 0)',
+    '<datamodel::expression_engine::RFsmExpressionDatamodel as datamodel::Datamodel>::execute_for_each|assert|overflow:Add|1':
+        'idx counts the iterations over an in-memory array: cannot reach i64::MAX',
+    '<datamodel::expression_engine::RFsmExpressionDatamodel as datamodel::Datamodel>::execute_for_each|assert|overflow:Add|2':
+        'idx counts the iterations over an in-memory map: cannot reach i64::MAX',
+    '<expression_engine::expressions::ExpressionMemberAccess as expression_engine::expressions::Expression>::execute|unwrap|unwrap<-get|1':
+        'the key was inserted into the same map on the line before',
+    '<expression_engine::expressions::ExpressionVariable as expression_engine::expressions::Expression>::execute|unwrap|unwrap<-get|1':
+        'the variable was just created by set_undefined on a name that get() did not find (so no read-only entry blocks the insert)',
+    'expression_engine::lexer::ExpressionLexer::eat_space|index|index:Vec|1':
+        'guarded by has_next() (pos < text.len()) in the same short-circuit condition',
+    'expression_engine::lexer::ExpressionLexer::next_char|index|index:Vec|1':
+        'inside `if self.pos < self.text.len()`',
+    'expression_engine::lexer::ExpressionLexer::push_back|assert|overflow:Sub|1':
+        'inside `if self.pos > 0`',
+    'expression_engine::parser::ExpressionParser::fold_stack_at|vec-remove|remove|1':
+        'inside `idx > 0 && idx + 1 < stack.len()`',
+    'expression_engine::parser::ExpressionParser::fold_stack_at|vec-remove|remove|2':
+        'idx < old len - 1 after one removal above it',
+    'expression_engine::parser::ExpressionParser::fold_stack_at|assert|overflow:Sub|1':
+        'idx > 0 on this path',
+    'expression_engine::parser::ExpressionParser::fold_stack_at|vec-remove|remove|3':
+        'idx - 1 >= 0 and < len',
+    'expression_engine::parser::ExpressionParser::fold_stack_at|assert|overflow:Sub|2':
+        'idx > 0 on this path',
+    'expression_engine::parser::ExpressionParser::fold_stack_at|vec-insert|insert|1':
+        'idx - 1 <= len after the three removals (len >= idx - 1 because idx + 1 < old len)',
+    'expression_engine::parser::ExpressionParser::stack_to_expression|index|index:Vec|1':
+        'loop condition si < stack.len(); the stack is not shrunk in the loop',
+    'expression_engine::parser::ExpressionParser::stack_to_expression|index|index:Vec|2':
+        'same si as the read on the scrutinee',
+    'expression_engine::parser::ExpressionParser::stack_to_expression|diverge|panic!|1':
+        "reachable only for a stack token other than Identifier / Operator / Separator('.'): excluded by rule R11.2 (all SToken push sites)",
+    'expression_engine::parser::ExpressionParser::stack_to_expression|vec-remove|remove|1':
+        'the stack is non-empty (is_empty() returned early above and nothing was removed on this path)',
+    'expression_engine::parser::ExpressionParser::stack_to_expression|unwrap|unwrap<-get|1':
+        'best_idx was assigned from si < stack.len() in the scan and the stack is unchanged since',
+    'expression_engine::parser::ExpressionParser::stack_to_expression|vec-remove|remove|2':
+        'inside `best_idx + 1 < stack.len()`',
+    'expression_engine::parser::ExpressionParser::stack_to_expression|vec-remove|remove|3':
+        'best_idx < len after one removal because best_idx + 1 < old len',
+    'expression_engine::parser::ExpressionParser::stack_to_expression|vec-insert|insert|1':
+        'best_idx <= len after two removals',
+    'expression_engine::parser::ExpressionParser::stack_to_expression::{closure#3}|vec-insert|insert|1':
+        'insert at 0 is always in range',
 }
